@@ -357,16 +357,14 @@ def run(ctx):
         ctx.ob("R5", "%s|offset := shift()" % od.short, ok_w and bool(ak) and all(od.dominates(ak[0], i) for (i, t) in sc), od.where(),
                "ack_rcvd then shift: %s; every write of SendBuf.offset stores shift()'s result: %s" % (bool(ak), ok_w))
         # the number of bytes dropped is (shift result - old offset)
-        dl = od.locals_named("drain_len")
+        # the number of bytes to drop: some local defined as (shift() - offset) that the dropping loop counts down
         ok_d = False
-        for l in dl:
-            for (bb, jj, rv) in od.defs_of(l):
-                if jj != "term":
-                    rs = set()
-                    for o in rvalue_operands(rv):
-                        rs |= value_roles(od, o)
-                    if any(r.startswith("diff(") and "field:SendBuf.offset" in r and "BufMap::shift" in r for r in rs):
-                        ok_d = True
+        for (i_, j_, p_, rv_, line_) in od.assigns():
+            rs = set()
+            for o in rvalue_operands(rv_):
+                rs |= value_roles(od, o)
+            if any(r.startswith("diff(") and "field:SendBuf.offset" in r and "BufMap::shift" in r for r in rs):
+                ok_d = True
         rm = [i for i, t in od.calls() if re.search(r"VecDeque(<.*>|::<.*>)?::pop_front$|Bytes::slice$", callee(t))]
         ctx.ob("R5", "%s|drops exactly shift() - offset bytes" % od.short, ok_d and bool(rm), od.where(),
                "drain_len is shift() - offset: %s; byte-dropping operations at %s" % (ok_d, rm))
